@@ -59,16 +59,18 @@ Qed.
 
 (* ... and with pre-spawn mappings, when each mapping concerns a server entity the client does not know,
    which occurs in the changes array of the same message, and a pre-spawned entity that is neither marked
-   nor mapped ([map_step_ok], checked along the mappings in order by [maps_ok]) *)
+   nor mapped ([map_step_ok], checked along the mappings in order by [maps_ok]) - at the moment the mappings
+   are applied: [maps_pre c u] is the client after the despawn records of the message (since the repair of
+   defect D30 they come first; before, the premise was about the client before the message) *)
 Theorem C03E_update_message_maps : forall c u c',
-  cs_inv c -> maps_ok (set_upd_tick c (u_tick u)) (u_maps u) ->
+  cs_inv c -> maps_ok (maps_pre c u) (u_maps u) ->
   (forall e, In e (map fst (u_maps u)) -> In e (map fst (u_changes u))) ->
   apply_update_message c u = Ok c' ->
   struct_equiv (client_struct c') (abs_apply (client_struct c) u) /\ cs_inv c' /\ cl_upd_tick c' = u_tick u.
 Proof. exact update_message_struct_maps. Qed.
 
 Theorem C03E_update_message_one_map : forall c u c' e pc,
-  cs_inv c -> u_maps u = [(e, pc)] -> map_step_ok c e pc -> In e (map fst (u_changes u)) ->
+  cs_inv c -> u_maps u = [(e, pc)] -> map_step_ok (maps_pre c u) e pc -> In e (map fst (u_changes u)) ->
   apply_update_message c u = Ok c' ->
   struct_equiv (client_struct c') (abs_apply (client_struct c) u) /\ cs_inv c' /\ cl_upd_tick c' = u_tick u.
 Proof. exact update_message_struct_one_map. Qed.
